@@ -991,3 +991,15 @@ def vary(run, rng):
             forms = [f for f in _forms_for(o['fn'], len(o['sel'])) if f != 'pair']
             o['form'] = rng.choice(forms) if forms else o['form']
         ops.insert(rng.randint(k + 1, len(ops)), o)
+
+
+def shape(run):
+    """coarse state class of a run (for distinct_nontrivial): configuration x input shape x operation kinds"""
+    specs = run['init']['pool']
+    counts = [len(sp['s']) for sp in specs]
+    allt = [t for sp in specs for t in sp['s']]
+    e = specs[0]['e']
+    kinds = sorted(set(o['op'] for o in run['ops']))
+    fams = sorted(set(FUNCS[o['fn']][0] if o.get('fn') in FUNCS else o.get('m', '') for o in run['ops']))
+    return digest([run['swarm']['config'], len(counts), sum(1 for c in counts if c == 0), sum(1 for c in counts if c == 1),
+                   len(allt) != len(set(allt)), any(t in (e[0], e[1]) for t in allt), kinds, fams])
